@@ -107,19 +107,39 @@ Fixpoint ZI (l : bool) (P : N -> Prop) (stk : list pc) : Prop :=
       else (inz l r -> lfv P f) /\ ZI l P r
   end.
 
-(** "[v] was the content of the command's container after the thread's current start." *)
+(** The container a zone of thread [t] loads from: the container of a load command, or the
+    one named by a [WHelpRepl] frame (the helper's own storage). *)
+Definition named (s : state) (t : N) (c : N) : Prop :=
+  (ld s t = true /\ cur_cont0 s t = Some c) \/
+  (exists old w ctl, In (WHelpRepl c old w ctl) (t_stack (thr s t))).
+
+(** "[v] was the content of the zone's container after the thread's current start." *)
 Definition Fr (s : state) (g : ghost) (t : N) (v : N) : Prop :=
-  forall c, cur_cont0 s t = Some c -> (g_lt g c v >= g_start g t)%nat.
+  forall c, named s t c -> (g_lt g c v >= g_start g t)%nat.
 
 Definition ZoneInv (s : state) (g : ghost) : Prop :=
   forall t,
     ZI (ld s t) (Fr s g t) (t_stack (thr s t)) /\
-    (forall cand e rest, t_stack (thr s t) = LH7 cand e :: rest -> inz (ld s t) rest ->
-                         Fr s g t (mem (sh s) (LEnv e))).
+    (forall cand e rest, t_stack (thr s t) = LH7 cand e :: rest -> Fr s g t (mem (sh s) (LEnv e))).
+
+(** Any two frames of a stack that name a container name the same one. *)
+Definition ContPair (s : state) : Prop :=
+  forall t f1 f2 c1 c2, In f1 (t_stack (thr s t)) -> In f2 (t_stack (thr s t)) ->
+    pc_cont f1 = Some c1 -> pc_cont f2 = Some c2 -> c1 = c2.
+
+(** The stack of a running load command ends with the frame that stores the result. *)
+Definition load_dst (c : cmd) : option N :=
+  match c with CLoad _ h | CLoadFull _ h => Some h | _ => None end.
+
+Definition LdBot (s : state) : Prop :=
+  forall t c h, cur_cmd s t = Some c -> load_dst c = Some h ->
+    t_stack (thr s t) = [] \/ exists pre, t_stack (thr s t) = pre ++ [KDone (Some h)].
 
 Record LinInv2 (s : state) (g : ghost) : Prop := {
   l2_fresh : LtFresh s g;
   l2_cont : ContAll s;
+  l2_pair : ContPair s;
+  l2_bot : LdBot s;
   l2_zone : ZoneInv s g;
   l2_pub : PubFresh s g;
   l2_help : HelpFresh s g;
